@@ -137,7 +137,7 @@ func runServerSide(c *hk.Ctx) {
 			} else if len(left) > 0 || after.FDs > base.FDs {
 				leaked["streamable"] = true
 				c.Violate(hk.Violation{Fingerprint: "calls:server:streamable:not_released_after_peer_gone", What: "after every connection of the peers was ended, goroutines or connections the Streamable HTTP server created for them are still there",
-					Input: map[string]any{"peers": peers, "per_peer": "initialize, initialized, GET stream, tools/call that blocks until its context ends", "connections_end_by": kind},
+					Input:    map[string]any{"peers": peers, "per_peer": "initialize, initialized, GET stream, tools/call that blocks until its context ends", "connections_end_by": kind},
 					Observed: map[string]any{"goroutines": libKeys(left), "fds_before": base.FDs, "fds_after": after.FDs}})
 			}
 			ts.CloseClientConnections()
@@ -212,7 +212,7 @@ func runServerSide(c *hk.Ctx) {
 			} else if len(left) > 0 || after.FDs > base.FDs {
 				leaked["sse"] = true
 				c.Violate(hk.Violation{Fingerprint: "calls:server:sse:not_released_after_peer_gone", What: "after every connection of the peers was ended, goroutines or connections the legacy SSE server created for them are still there (processRequestAsync runs the tool with a context detached from everything: a tool waiting for its context never learns that the session's event stream is gone)",
-					Input: map[string]any{"peers": peers, "per_peer": "GET /sse, initialize, initialized, tools/call that blocks until its context ends", "connections_end_by": kind},
+					Input:    map[string]any{"peers": peers, "per_peer": "GET /sse, initialize, initialized, tools/call that blocks until its context ends", "connections_end_by": kind},
 					Observed: map[string]any{"goroutines": libKeys(left), "fds_before": base.FDs, "fds_after": after.FDs}})
 			}
 			ts.CloseClientConnections()
